@@ -42,7 +42,7 @@ func ParseBehaviour(path string) ([]Step, error) {
 
 // gate points used in replay mode
 var replayGates = []string{
-	"serve.call", "sv.init", "sv.started",
+	"serve.call", "sv.init", "sv.started", "sv.waited",
 	"rw.enter", "rw.checked", "rw.unlocked",
 	"wk.start", "cb.body",
 	"sd.call", "sd.enter", "sd.cas", "cl.unlocked", "cl.bcast", "cl.connclosed", "cl.inchclosed", "sd.waited", "sd.cleared",
@@ -51,23 +51,25 @@ var replayGates = []string{
 
 // where a role's goroutine must be parked for an action to be taken, by action
 var actionGate = map[string][]string{
-	"SvCas":       {"serve.call"},
-	"SvStarted":   {"sv.init"},
-	"RwCheck":     {"rw.enter"},
-	"RwEnqueue":   {"rw.checked"},
-	"RwSignal":    {"rw.unlocked"},
-	"WkLock":      {"wk.start"},
-	"WkRelock":    {"cb.body"},
-	"SdCas":       {"sd.call", "sd.enter"},
-	"ClNil":       {"sd.cas"},
-	"ClBroadcast": {"cl.unlocked"},
-	"ClConnClose": {"cl.bcast"},
-	"ClCloseInCh": {"cl.connclosed"},
-	"SdWait":      {"cl.inchclosed"},
-	"SdClear":     {"sd.waited"},
-	"SdStopped":   {"sd.cleared"},
-	"ApiCheck":    {"api.call"},
-	"ApiUse":      {"api.checked"},
+	"SvCas":          {"serve.call"},
+	"SvStarted":      {"sv.init"},
+	"SvReturn":       {"sv.waited"},
+	"OldServeReturn": {"sv.waited"},
+	"RwCheck":        {"rw.enter"},
+	"RwEnqueue":      {"rw.checked"},
+	"RwSignal":       {"rw.unlocked"},
+	"WkLock":         {"wk.start"},
+	"WkRelock":       {"cb.body"},
+	"SdCas":          {"sd.call", "sd.enter"},
+	"ClNil":          {"sd.cas"},
+	"ClBroadcast":    {"cl.unlocked"},
+	"ClConnClose":    {"cl.bcast"},
+	"ClCloseInCh":    {"cl.connclosed"},
+	"SdWait":         {"cl.inchclosed"},
+	"SdClear":        {"sd.waited"},
+	"SdStopped":      {"sd.cleared"},
+	"ApiCheck":       {"api.call"},
+	"ApiUse":         {"api.checked"},
 }
 
 const (
@@ -113,21 +115,11 @@ func Replay(seed int64, prog Program, steps []Step) *RunResult {
 	for _, st := range steps {
 		applied := false
 		switch st.Action {
-		case "SvInit", "SvListenEnd", "SvReturn", "WkReacquire", "Terminated":
+		case "SvReturn", "OldServeReturn":
+			// the (oldest) Serve call that has finished waiting for its workers returns
+			_, applied = release("serve", actionGate[st.Action], nil, nil)
+		case "SvInit", "SvListenEnd", "WkReacquire", "Terminated":
 			// no gate: these happen on their own (inside Serve / sync primitives)
-			if st.Action == "SvReturn" {
-				select {
-				case <-sc.serveDone:
-					cycle++
-					if cycle < prog.Cycles {
-						sc.Start(cycle)
-						if prog.Shutdown {
-							sc.StartShutdown(sdDur)
-						}
-					}
-				case <-time.After(2 * time.Second):
-				}
-			}
 			if st.Action == "WkReacquire" {
 				delete(bound, st.Proc) // whichever worker really woke up is bound at its next step
 			}
@@ -175,6 +167,15 @@ func Replay(seed int64, prog Program, steps []Step) *RunResult {
 			}
 			if gates, ok := actionGate[st.Action]; ok {
 				_, applied = release(role, gates, nil, nil)
+			}
+			if st.Action == "SdStopped" && applied && cycle+1 < prog.Cycles {
+				// the service is stopped: it may be served again at once, whether or not the previous
+				// Serve call has returned (the next SvCas step decides when)
+				cycle++
+				sc.Start(cycle)
+				if prog.Shutdown {
+					sc.StartShutdown(sdDur)
+				}
 			}
 		}
 		if os.Getenv("VERIF_DEBUG_REPLAY") != "" {
